@@ -29,6 +29,10 @@ type Inner struct {
 type EmbA struct {
 	Ea int
 	Eb string
+	// scalars that do not sit at offset 0 of the embedded struct (an encoder
+	// that loses the offset of a promoted field reads Ea instead)
+	Ef float64
+	Eh bool
 }
 
 // EmbT is an embedded struct whose own fields carry tags and a pointer.
@@ -102,7 +106,7 @@ func buildKinds() []FieldKind {
 	add("uint16", "int", uint16(0), Val{"nonzero", rv(uint16(65535))})
 	add("int64", "int", int64(0), Val{"nonzero", rv(int64(1) << 40)})
 	add("float32", "float", float32(0), Val{"nonzero", rv(float32(1.5))})
-	add("float64", "float", float64(0), Val{"nonzero", rv(float64(2.25))})
+	add("float64", "float", float64(0), Val{"nonzero", rv(float64(0.1234567890123))}) // not a float32: a 32-bit formatting slip shows
 	add("string", "string", "", Val{"nonzero", rv("s")})
 	add("bytes", "bytes", []byte(nil),
 		Val{"empty", func() reflect.Value { return reflect.ValueOf([]byte{}) }},
@@ -148,9 +152,9 @@ func buildKinds() []FieldKind {
 		ks = append(ks, FieldKind{Name: name, Class: class, Type: t, Embedded: true, EmbName: embName,
 			Vals: append([]Val{{"zero", zeroOf(t)}}, vals...)})
 	}
-	emb("embed", "embed", "EmbA", EmbA{}, Val{"nonzero", rv(EmbA{Ea: 1, Eb: "e"})})
+	emb("embed", "embed", "EmbA", EmbA{}, Val{"nonzero", rv(EmbA{Ea: 1, Eb: "e", Ef: 0.1234567890123, Eh: true})})
 	emb("embedT", "embed", "EmbT", EmbT{}, Val{"nonzero", func() reflect.Value { i := 5; return reflect.ValueOf(EmbT{Ec: 2, Ed: "d", Ee: &i}) }})
-	emb("embedptr", "embedptr", "EmbA", (*EmbA)(nil), Val{"nonzero", func() reflect.Value { return reflect.ValueOf(&EmbA{Ea: 1, Eb: "e"}) }})
+	emb("embedptr", "embedptr", "EmbA", (*EmbA)(nil), Val{"nonzero", func() reflect.Value { return reflect.ValueOf(&EmbA{Ea: 1, Eb: "e", Ef: 0.1234567890123, Eh: true}) }})
 	return ks
 }
 
